@@ -1324,6 +1324,127 @@ func insideBatch(how string) Case {
 	return c
 }
 
+// ---------------------------------------------------------------- revocation between consuming an initiation and answering it
+
+// insideHandshake: like insideBatch, the harness owns the device.Logger.  A handshake worker that has consumed peer 1's
+// initiation logs "Received handshake initiation" before it creates the response; the logger performs the revocation
+// (remove=true, replace_peers=true or a private-key change) right there, inside the worker's goroutine, so it happens and
+// RETURNS strictly between ConsumeMessageInitiation and CreateMessageResponse.  Afterwards no response may leave:
+// the removed peer must not get a datagram / an index entry, and after an identity change no response may complete a
+// handshake that was consumed under the old identity.
+func insideHandshake(how string) Case {
+	c := Case{Mode: 1, Gen: "inside-handshake:" + how, Plan: []string{"insidehandshake " + how}}
+	bind := sim.NewBind(1)
+	tn := sim.NewTun(1, 1420)
+	var r *runner
+	var armed atomic.Bool
+	var removed atomic.Uint64
+	newKey := ref.NewPrivate()
+	logger := &device.Logger{
+		Verbosef: func(format string, args ...any) {
+			if strings.Contains(format, "Received handshake initiation") && armed.CompareAndSwap(true, false) {
+				cfg := "replace_peers=true\n"
+				switch how {
+				case "remove":
+					cfg = "public_key=" + hex.EncodeToString(r.peers[1].pub[:]) + "\nremove=true\n"
+				case "setkey":
+					cfg = "private_key=" + hex.EncodeToString(newKey[:]) + "\n"
+				}
+				r.w.Dev.IpcSet(cfg)
+				removed.Store(sim.Seq.Add(1))
+			}
+		},
+		Errorf: func(format string, args ...any) {},
+	}
+	w := &cosim.World{Bind: bind, Tun: tn, Timeout: 3 * time.Second}
+	w.DevPriv = ref.NewPrivate()
+	w.DevPub = ref.PubOf(w.DevPriv)
+	w.Dev = device.NewDevice(tn, bind, logger)
+	if err := w.Dev.IpcSet("private_key=" + hex.EncodeToString(w.DevPriv[:]) + "\nlisten_port=51820\n"); err != nil {
+		c.Stuck = err.Error()
+		return c
+	}
+	r = newRunnerWith(w)
+	for _, a := range []string{"add 1 ep 1", "add 2 ep 2", "up"} {
+		r.do(a)
+	}
+	p := r.peers[1]
+	type start struct {
+		seq  uint64
+		to   netip.AddrPort
+		data []byte
+	}
+	var mu sync.Mutex
+	var starts []start
+	bind.SendGate = func(bufs [][]byte, to netip.AddrPort) {
+		mu.Lock()
+		for _, b := range bufs {
+			starts = append(starts, start{sim.Seq.Add(1), to, append([]byte{}, b...)})
+		}
+		mu.Unlock()
+	}
+	oldPub := w.DevPub
+	st := ref.CreateInitiation(p.priv, ref.NewPrivate(), oldPub, ref.Key{}, 0x7101, ref.Tai64n(time.Now()))
+	armed.Store(true)
+	w.Inject(p.addr, st.Msg)
+	rem := removed.Load()
+	if rem == 0 {
+		c.Stuck = "the revocation was not triggered inside the handshake"
+	}
+	ev := Ev{K: "remove", Pk: 1}
+	switch how {
+	case "replace":
+		ev = Ev{K: "replace"}
+	case "setkey":
+		id := identity{id: r.nextID, priv: newKey, pub: ref.PubOf(newKey)}
+		r.nextID++
+		r.idents = append(r.idents, id)
+		r.cur = id.id
+		w.DevPriv, w.DevPub = id.priv, id.pub
+		ev = Ev{K: "setkey", Pk: id.id}
+	}
+	mu.Lock()
+	var late []sim.Sent
+	var lateSeq uint64
+	for _, s := range starts {
+		if rem != 0 && s.seq > rem && s.to == p.addr {
+			late = append(late, sim.Sent{Seq: s.seq, To: s.to, Data: s.data})
+			if lateSeq == 0 {
+				lateSeq = s.seq
+			}
+		}
+	}
+	mu.Unlock()
+	obs := r.observe(cosim.Out{Sent: late}, unknownID)
+	for i, s := range late {
+		if len(s.Data) == ref.ResponseSize && s.Data[0] == ref.TypeResponse {
+			if _, err := st.ConsumeResponse(s.Data); err == nil {
+				obs.Outs[i].Ident = 100 // it completes the handshake that was addressed to the OLD identity
+			}
+		}
+	}
+	ghosts := 0
+	keys := map[int]bool{}
+	for _, k := range obs.Keys {
+		keys[k] = true
+	}
+	for _, e := range obs.Itab {
+		if !keys[int(e[1])] {
+			ghosts++
+		}
+	}
+	c.Race = &RaceObs{Kind: "inside-handshake", Ghosts: ghosts, LateDatagrams: len(late), RemovedSeq: rem, LateSeq: lateSeq}
+	c.Steps = append(r.steps, Step{Ev: ev, Obs: obs})
+	done := make(chan struct{})
+	go func() { w.Dev.Close(); close(done) }()
+	select {
+	case <-done:
+	case <-time.After(10 * time.Second):
+		c.Stuck = "Close did not return"
+	}
+	return c
+}
+
 // ---------------------------------------------------------------- Gallina
 
 func gEv(e Ev) string {
@@ -1451,6 +1572,19 @@ func main() {
 				cases = append(cases, rc)
 				continue
 			}
+			if len(c.Plan) == 1 && strings.HasPrefix(c.Plan[0], "insidehandshake") {
+				f := strings.Fields(c.Plan[0])
+				how := "remove"
+				if len(f) > 1 {
+					how = f[1]
+				}
+				rc := insideHandshake(how)
+				if gen != "" {
+					rc.Gen = gen
+				}
+				cases = append(cases, rc)
+				continue
+			}
 			if len(c.Plan) == 1 && strings.HasPrefix(c.Plan[0], "insidebatch") {
 				f := strings.Fields(c.Plan[0])
 				how := "remove"
@@ -1550,6 +1684,7 @@ func main() {
 		}
 		for i := 0; i < *inside; i++ {
 			cases = append(cases, insideBatch("remove"), insideBatch("replace"))
+			cases = append(cases, insideHandshake("remove"), insideHandshake("replace"), insideHandshake("setkey"))
 		}
 		for _, f := range pending {
 			cases = append(cases, f())
